@@ -811,6 +811,9 @@ func sortedKeys(m map[string]*Contract) []string {
 // registerImmutable declares the heap keys of `immutable T.f` fields up front, so that every havoc can relate the new
 // heap to the old one on already-allocated objects.
 func (vc *VC) registerImmutable() {
+	if os.Getenv("GVERIF_NOIMM") != "" {
+		return
+	}
 	var names []string
 	for n := range vc.eng.db.Immutable {
 		names = append(names, n)
